@@ -207,6 +207,11 @@ def judgeE2E (id : String) (hostCfg : Option Bytes) (aks secrets : List Bytes) (
       if access.contains '/' || backend.contains '/' then specfail id "hook-called-twice" s!"access={access} backend={backend}"
       else if backend ≠ "-" && backendWho ≠ access then
         specfail id "backend-identity-differs" s!"access={access} backend={backend}"
+      -- C07/C11: a request that presents V2 query signature material which does not verify is refused; it is never
+      -- passed on as an anonymous request
+      else if sv.isNone && (access = "anon" || backendWho = "anon") &&
+          (match ctx.qs with | some q => SigV2.has q (v2b!"Signature") | none => false) then
+        specfail id "unverified-signature-passed-as-anonymous" s!"access={access} backend={backend} tag={tag}"
       else if implKey ≠ sv then
         let cls :=
           if vh ≠ specVhBucket hostCfg hostHeader then "vhost-bucket-derivation"
